@@ -169,7 +169,13 @@ def run(ctx):
                # definitions that refer to themselves or to each other (not legal SMT-LIB, but inputs all the same)
                ('corpus', '(set-logic ALL)\n(define-fun f () Int g)\n(define-fun g () Int f)\n(assert (= f 0))\n(check-sat)\n'),
                ('corpus', '(set-logic ALL)\n(define-fun f ((x Int)) Int (+ 1 (f x)))\n(assert (= (f 1) 0))\n(check-sat)\n'),
-               ('corpus', '(set-logic ALL)\n(define-fun w () (_ BitVec 8) ((_ zero_extend 0) w))\n(assert (= w #x00))\n(check-sat)\n')]
+               ('corpus', '(set-logic ALL)\n(define-fun w () (_ BitVec 8) ((_ zero_extend 0) w))\n(assert (= w #x00))\n(check-sat)\n'),
+               # further cycles reported by seeded-change agents (known findings): a let variable that shadows a declared constant;
+               # a quoted and an unquoted spelling of one name, both declared; a damaged (fp ...) literal
+               ('corpus', '(set-logic ALL)\n(declare-const x Int)\n(declare-const y Int)\n(assert (let ((x (+ y 1))) (> x 0)))\n(check-sat)\n'),
+               ('corpus', '(set-logic ALL)\n(declare-const a Int)\n(declare-const |a| Int)\n(assert (> |a| 0))\n(check-sat)\n'),
+               ('corpus', '(set-logic ALL)\n(declare-const f (_ FloatingPoint 5 11))\n(assert (fp.isNaN (fp (_ bv0 1) (_ bv0 5) (_ bv0 10))))\n(check-sat)\n'),
+               ('corpus', '(set-logic ALL)\n(declare-const x Int)\n(declare-const y Int)\n(assert (= x (+ y 1)))\n(check-sat)\n')]
     budget = 24 if ctx.thorough else 12
     tot = dict(proposals=0, explored=0)
     for cls, text in inputs:
